@@ -16,7 +16,10 @@ TABLE = [(["date", "int", "str"], DATES + [["int", 5], ["str", "t"]]), (["bytes"
 def configs(prop, tier):
     L = 4 if tier == "quick" else 5
     if prop == "C13":
-        return [dict(MaxLen=L), dict(MaxLen=L, Mixin='"msgpack"'), dict(MaxLen=L - 1, Mixin='"orjson"', LazyC=True)]
+        return [dict(MaxLen=L), dict(MaxLen=L, Mixin='"msgpack"'), dict(MaxLen=L - 1, Mixin='"orjson"', LazyC=True),
+                # a format dialect that changes the document (bytes stay native) on a class compiled at its first call: the format
+                # dialect is part of every method the stub compiles, with and without a call dialect, in every order of first use
+                dict(MaxLen=L - 1, Mixin='"msgpack"', LazyC=True), dict(MaxLen=L - 1, Mixin='"msgpack"', LazyC=True, LazyInner=True)]
     if prop == "C14":
         return [dict(MaxLen=L, LazyC=True), dict(MaxLen=L, LazyC=True, LazyInner=True), dict(MaxLen=L, LazyInner=True),
                 dict(MaxLen=L - 1, LazyC=True, Mixin='"orjson"', KwFlags=True), dict(MaxLen=L - 1, LazyC=True, Mixin='"msgpack"', KwFlags=True),
